@@ -27,6 +27,15 @@ Theorem c09_refines_list : forall sz ops,
 Proof. exact refines_list. Qed.
 Print Assumptions c09_refines_list.
 
+(* ... and the same from ANY state satisfying the invariant (not only a freshly created WAL): every continuation
+   keeps the invariant and is observably the list specification started from that state's abstraction. *)
+Theorem c09_refines_list_any_state : forall ops w,
+  Inv w -> Forall (valid_op (seg_size w)) ops ->
+  Inv (fst (run w ops)) /\
+  s_run (abs w) (annotate w ops) = (abs (fst (run w ops)), snd (run w ops)).
+Proof. exact refines_list_gen. Qed.
+Print Assumptions c09_refines_list_any_state.
+
 (* The list behind the WAL has contiguous offsets from the oldest retained entry to the last appended one,
    and first <= last whenever the log is not empty. *)
 Theorem c09_log_contiguous : forall sz ops,
